@@ -21,6 +21,12 @@ R03.6 AES round typestate in the 12 expanded-key bodies (lib/aesrounds.py, on th
       through those of the k1 schedule, round keys in order, the last round in its *last form, and only finished
       blocks (or bytes assembled from finished blocks: ciphertext stealing) are stored through out.  The 12 raw-key
       bodies expand their keys inline into registers and their frame; their rounds are not judged.
+R03.7 tweak sequence in the 16 sse / avx bodies (raw and expanded key): the tweak is multiplied by alpha in a pair of
+      general registers (shl / adc / conditional xor) and written to the frame in halves; the exponent travels with
+      it (lib/aesrounds.py).  For every length 16..299 the value stored as output block j depends on T*alpha^j; with a
+      trailing partial block the last full position depends on alpha^m when encrypting and alpha^(m-1) when
+      decrypting, and the trailing bytes on the other one (ciphertext stealing swaps the last two tweaks for
+      decryption).  The VAES bodies compute their tweaks with vector shifts and are not judged by this rule.
 R03.3 every XTS body is reached: each of the 8 dispatchers offers an sse, an avx and a vaes candidate and every
       candidate has the 6-argument signature taken from aes/aes_xts.c (anchor / instance floor).
 Positive control: under len in [16,31] the same analysis does reach accesses through both buffers in every body.
@@ -80,6 +86,25 @@ def worker(lib, objname, extra):
         for b in p1.broken:
             out["broken"].append("%s::%s %s" % (objname, name, b))
         out["bodies"] += 1
+        if re.search(r"_(sse|avx)$", name):
+            nr7 = {128: 10, 256: 14}[int(re.search(r"_(128|256)_", name).group(1))]
+            bad7 = None
+            n7 = 0
+            for L in range(16, 700 if extra.get("tier") == "thorough" else 300):
+                mch = aesrounds.run_body(lib, f, sig, nr7, L)
+                if mch.result.stopped or not mch.result.returned:
+                    out["broken"].append("%s: length skeleton not followed for len = %d (%s)" % (name, L, mch.result.stopped))
+                    break
+                v7, k7 = aesrounds.judge_tweaks(mch, L, "_dec_" in name)
+                n7 += k7
+                if v7 and not bad7:
+                    bad7 = (L, v7)
+            out["tw_bodies"] = out.get("tw_bodies", 0) + 1
+            out["tw_stores"] = out.get("tw_stores", 0) + n7
+            if bad7:
+                out["findings"].append({"rule": "R03.7", "obj": objname, "function": name, "construct": "tweak:len=%d" % bad7[0], "message": "with len = %d: %s" % (bad7[0], bad7[1][1]), "loc": o.line_of(key[1], bad7[1][0].addr) or objname})
+            else:
+                out["tw_ok"] = out.get("tw_ok", 0) + 1
         if "expanded_key" in name:
             nr_ = {128: 10, 256: 14}[int(re.search(r"_(128|256)_", name).group(1))]
             hi_ = 700 if extra.get("tier") == "thorough" else 300
@@ -241,7 +266,7 @@ def run(chk):
     tot = collections.Counter()
     for objname in sorted(res):
         r = res[objname]
-        for k in ("bodies", "ins_reachable", "mem_reachable", "aligned_sinks", "ptr_accesses", "r031_ok", "r031_bad", "r032_ok", "r032_bad", "ip_bodies", "ip_ok", "ip_pairs", "ip_match", "rt_bodies", "rt_ok", "rt_lanes", "rt_unl", "rt_runs", "rt_rounds", "rt_unk"):
+        for k in ("bodies", "ins_reachable", "mem_reachable", "aligned_sinks", "ptr_accesses", "r031_ok", "r031_bad", "r032_ok", "r032_bad", "ip_bodies", "ip_ok", "ip_pairs", "ip_match", "rt_bodies", "rt_ok", "rt_lanes", "rt_unl", "rt_runs", "rt_rounds", "rt_unk", "tw_bodies", "tw_ok", "tw_stores"):
             tot[k] += r.get(k, 0)
         for b in r["broken"]:
             chk.broke(b)
@@ -256,6 +281,9 @@ def run(chk):
     chk.obligations["R03.2"] = [tot["bodies"], tot["r032_ok"]]
     chk.obligations["R03.5"] = [tot["ip_bodies"], tot["ip_ok"]]
     chk.obligations["R03.6"] = [tot["rt_bodies"], tot["rt_ok"]]
+    chk.obligations["R03.7"] = [tot["tw_bodies"], tot["tw_ok"]]
+    chk.floor("sse / avx bodies judged for the tweak sequence", tot["tw_bodies"], 16)
+    chk.floor("output stores judged for their tweak", tot["tw_stores"], 40000)
     chk.floor("expanded-key bodies judged for the AES round typestate", tot["rt_bodies"], 12)
     chk.floor("XTS output blocks judged for the round typestate", tot["rt_lanes"], 30000)
     chk.extra["round_typestate"] = {"runs": tot["rt_runs"], "output_blocks_judged": tot["rt_lanes"], "output_blocks_not_judged": tot["rt_unl"], "round_steps_in_order": tot["rt_rounds"], "round_steps_not_judged": tot["rt_unk"]}
